@@ -47,7 +47,14 @@ def _always_reaches(eff, ci, fn, is_reset, builder, depth=0):
                 if m is not None and m is not fn and _always_reaches(eff, ci, m, is_reset, builder, depth + 1):
                     hit = True
         if hit:
-            conds = enclosing_conditions(fn, st)
+            conds = list(enclosing_conditions(fn, st))
+            # an early 'return' before the statement is a condition on reaching it as well (an early 'raise' rejects the update: nothing changes)
+            # (only in the mutator itself: a builder that returns early while the object is still being constructed has nothing to rebuild yet)
+            for iff in (ast.walk(fn) if depth == 0 else ()):
+                if isinstance(iff, ast.If) and iff.lineno < st.lineno and not any(x is st for x in ast.walk(iff)) \
+                        and any(isinstance(x, ast.Return) for b_ in iff.body for x in ast.walk(b_)) \
+                        and not any(isinstance(x, ast.Raise) for b_ in iff.body for x in ast.walk(b_)):
+                    conds.append((iff.test, False))
             if not conds or (depth == 0 and all(_changed_test(fn, e, pol) for e, pol in conds)):
                 return True
     return False
@@ -56,11 +63,21 @@ def _always_reaches(eff, ci, fn, is_reset, builder, depth=0):
 def _changed_test(fn, e, pol):
     """'<new value> != self.<field>' (or 'is not'): skipping the reset when nothing changes is not a loss."""
     ps = {a.arg for a in fn.args.args[1:]}
-    if pol is True and isinstance(e, ast.Compare) and len(e.ops) == 1 and isinstance(e.ops[0], (ast.NotEq, ast.IsNot)):
+    differs = (pol is True and isinstance(e, ast.Compare) and len(e.ops) == 1 and isinstance(e.ops[0], (ast.NotEq, ast.IsNot))) or \
+              (pol is False and isinstance(e, ast.Compare) and len(e.ops) == 1 and isinstance(e.ops[0], (ast.Eq, ast.Is)))
+    if differs:
         l, r = e.left, e.comparators[0]
         for a, b in ((l, r), (r, l)):
             if isinstance(a, ast.Name) and a.id in ps and norm(b).startswith('self._'):
-                return True
+                # "unchanged" is only meaningful when the stored value cannot change behind the object's back: a container kept by reference
+                # (self._f = value, with value iterated / measured in the setter) compares equal to itself after the caller edited it in place
+                fld = norm(b)
+                by_ref = any(isinstance(st_, ast.Assign) and any(norm(t_) == fld for t_ in st_.targets) and isinstance(st_.value, ast.Name) and st_.value.id == a.id
+                             for st_ in ast.walk(fn))
+                container = any((isinstance(x, ast.For) and isinstance(x.iter, ast.Name) and x.iter.id == a.id)
+                                or (isinstance(x, ast.Call) and dotted(x.func) == 'len' and x.args and norm(x.args[0]) == a.id)
+                                or (isinstance(x, ast.comprehension) and isinstance(x.iter, ast.Name) and x.iter.id == a.id) for x in ast.walk(fn))
+                return not (by_ref and container)
     return False
 
 
@@ -278,6 +295,13 @@ def _calibrate_pixels(run, ci, cal, sp, K):
     if not cands:
         run.undecided('C16-R2', 'calibrate pixel value', 'no store of %s.integrate(a, b) / width recognised: %s' % (sp, [norm(s.value)[:60] for s in stores]))
         return
+    outs = {norm(st.targets[0].value) for st in cands}
+    for st in stores:
+        if st not in cands and norm(st.targets[0].value) in outs and not (isinstance(st.value, ast.Constant) and st.value.value == 0):
+            run.subject('C16-R2')
+            run.fail('C16-R2', K + 'calibrate|other-pixel-value', ci.mod.relpath, st.lineno,
+                     "calibrate also stores %s into the calibrated spectrum (%s): on that path the pixel is not the spectrum's integral over the "
+                     "pixel divided by its width, so value times width is not conserved" % (norm(st.value)[:50], norm(st.targets[0])))
     for st in cands:
         v = st.value
         idx = norm(st.targets[0].slice)
@@ -376,6 +400,13 @@ def _spectrometer_settings(run, prog, ci, K):
             run.fail('C16-R2', K + '_update_spectral_settings|' + fld, ci.mod.relpath, us0.lineno,
                      'Spectrometer._update_spectral_settings: %s = %s; the instrument range is %s of the %s edge of every accommodated spectrum'
                      % (fld, norm(e), fname, 'first' if want_idx == '0' else 'last'))
+        elif isinstance(e, ast.Subscript) and isinstance(e.value, ast.Subscript) and norm(e.value.value) in (W, 'self.wavelength_to_pixel') \
+                and norm(e.value.slice) in ('0', '-1') and norm(e.slice) in ('0', '-1'):
+            # one edge of one particular array: the arrays need not be listed in ascending, disjoint order
+            run.fail('C16-R2', K + '_update_spectral_settings|' + fld + '|one-array', ci.mod.relpath, us0.lineno,
+                     'Spectrometer._update_spectral_settings: %s = %s reads the %s accommodated spectrum only; the instrument range is the %s of the '
+                     '%s edge over every accommodated spectrum (nested or unordered spectra are not covered otherwise)'
+                     % (fld, norm(e), 'first' if norm(e.value.slice) == '0' else 'last', fname, 'first' if want_idx == '0' else 'last'))
         else:
             run.undecided('C16-R2', 'Spectrometer ' + fld, 'form not recognised: %s' % (norm(e) if e is not None else None))
     # bins = int(ceil((max - min) / step)),  step = min over spectra of the narrowest pixel / min_bins_per_pixel
@@ -628,6 +659,13 @@ _SP = 'cherab/tools/spectroscopy/spectrometer.py'
 _PO = 'cherab/tools/spectroscopy/polychromator.py'
 _IN = 'cherab/tools/spectroscopy/instrument.py'
 MUTANTS = [
+    dict(name='range-from-first-and-last-array', file='cherab/tools/spectroscopy/spectrometer.py',
+         find="        self._min_wavelength = min(wl2pix[0] for wl2pix in self._wavelength_to_pixel)\n", replace="        self._min_wavelength = self._wavelength_to_pixel[0][0]\n", expect='C16-R2'),
+    dict(name='narrow-pixels-take-the-sample-under-their-centre', file='cherab/tools/spectroscopy/spectrometer.py',
+         find="            for i in range(wl2pix.size - 1):\n                calibrated_spectrum[i] = spectrum.integrate(",
+         replace="            for i in range(wl2pix.size - 1):\n                if wl2pix[i + 1] - wl2pix[i] < spectrum.delta_wavelength:\n                    calibrated_spectrum[i] = spectrum.samples[int((wl2pix[i] - spectrum.min_wavelength) / spectrum.delta_wavelength)]\n                    continue\n                calibrated_spectrum[i] = spectrum.integrate(", expect='C16-R2'),
+    dict(name='unchanged-test-on-a-list-kept-by-reference', file='cherab/tools/spectroscopy/spectrometer.py',
+         find="        self._accommodated_spectra = value\n        self._update_wavelength_to_pixel()", replace="        if value == self._accommodated_spectra:\n            return\n        self._accommodated_spectra = value\n        self._update_wavelength_to_pixel()", expect='C16-R1'),
     dict(name='polychromator-range-from-outermost-centres', file='cherab/tools/spectroscopy/polychromator.py', find="        min_wavelength = np.inf\n        max_wavelength = 0\n        step = np.inf\n        for poly_filter in self._filters:\n            step = min(step, poly_filter.window / self._min_bins_per_window)\n            min_wavelength = min(min_wavelength, poly_filter.min_wavelength)\n            max_wavelength = max(max_wavelength, poly_filter.max_wavelength)\n",
          replace="        ordered = sorted(self._filters, key=lambda f: f.central_wavelength)\n        min_wavelength = ordered[0].min_wavelength\n        max_wavelength = ordered[-1].max_wavelength\n        step = min(f.window for f in ordered) / self._min_bins_per_window\n", expect='C16-R2'),
     dict(name='czerny-turner-angle-memo-reset-late', file='cherab/tools/spectroscopy/spectrometer.py',
